@@ -53,3 +53,17 @@ Definition value_eqb (a b : value) : bool :=
   | VL x, VL y => list_Z_eqb x y
   | _, _ => false
   end.
+
+(* the run-time type discipline rustc enforces: values of a declaration's family *)
+Definition typed (fam : family) (v : value) : bool :=
+  match fam, v with
+  | FInt _ _, VI _ => true
+  | FFloat _, VF _ => true
+  | FStr, VS _ => true
+  | FAny _, _ => true
+  | _, _ => false
+  end.
+
+(* user sanitizers return a value of the type they receive *)
+Definition lib_typed (lib : fnlib) : Prop :=
+  forall (id : N) (fam : family) (v : value), typed fam v = true -> typed fam (l_san lib id v) = true.
